@@ -38,18 +38,48 @@ class Engine:
             self._canon = Canon(self.p)
         return self._canon
 
-    def cnode(self, func):
-        """canonical tree of the function: single-use private helpers written out, aliases resolved, exits / negations / keyword arguments in one form"""
-        return self.canon.fn(func)
+    def cnode(self, func, paths=False):
+        """canonical tree of the function: single-use private helpers written out, aliases resolved, exits / negations / keyword arguments in one form.
+        paths=True: locals that only name an attribute path (`_counts = self._data`) are written out as well (see canon.close_paths)"""
+        if not paths:
+            return self.canon.fn(func)
+        k = ("paths", id(func))
+        n = self._ccfgs.get(k)
+        if n is None:
+            from .canon import close_paths
+
+            n = close_paths(self.canon.fn(func))
+            self._ccfgs[k] = n
+        return n
+
+    def cfunc(self, func, paths=True):
+        """the function with its canonical tree as `.node` (same name / class / module): rules written against FuncInfo work on it unchanged"""
+        from .srcmodel import FuncInfo
+
+        if getattr(func, "_is_canonical", False) if hasattr(func, "_is_canonical") else False:
+            return func
+        k = ("cfunc", id(func), paths)
+        c = self._ccfgs.get(k)
+        if c is None:
+            c = FuncInfo(func.name, func.cls, func.module, self.cnode(func, paths), func.kind, func.prop)
+            self._ccfgs[k] = c
+            self._keep = getattr(self, "_keep", [])
+            self._keep.append(func)
+        return c
+
+    def absorbed(self, func):
+        """True if the function is a private helper whose every reference is a call that the canonical form of the caller has written out (it is then analysed
+        as part of its callers and not on its own)"""
+        return self.canon.absorbed(func)
 
     def csrc(self, func):
         return self.canon.src(func)
 
-    def ccfg(self, func):
-        k = id(func)
+    def ccfg(self, func, paths=False):
+        k = (id(func), paths)
         c = self._ccfgs.get(k)
         if c is None:
-            c = CFG(self.cnode(func))
+            c = CFG(self.cnode(func, paths))
             self._ccfgs[k] = c
         return c
 
